@@ -3,6 +3,10 @@ import json
 from collections import defaultdict
 
 
+import re as _re_mod
+_STD_RE = _re_mod.compile(r'(?<![A-Za-z0-9_])(core|alloc)::')
+
+
 class Program:
     def __init__(self, paths):
         self.insts = {}      # key -> instance dict
@@ -26,6 +30,10 @@ class Program:
                 pat = _re.compile('|'.join('(?<![A-Za-z0-9_:])%s(?![A-Za-z0-9_])' % _re.escape(k) for k in sorted(ren, key=len, reverse=True)))
                 text = pat.sub(lambda mo: ren[mo.group(0)], text)
                 d = json.loads(text)
+            if _STD_RE.search(text):
+                # one spelling for std items in every configuration (no_std crates print core:: / alloc::, and rustc mixes both in std builds)
+                text = _STD_RE.sub('std::', text)
+                d = json.loads(text)
             self.crates.append(d['crate'])
             self.cfg.append((d['crate'], d['cfg']))
             if d.get('truncated'):
@@ -45,6 +53,13 @@ class Program:
     def get(self, key):
         return self.insts.get(key)
 
+    def feature(self, name, crate=None):
+        """is cargo feature `name` enabled in the (first / named) analysed crate"""
+        for c, cfg in self.cfg:
+            if crate is None or c == crate:
+                return ('feature=' + name) in cfg
+        return False
+
     def find(self, path):
         """Instances whose def path equals `path` (there may be several substitutions)."""
         return self.by_path.get(path, [])
@@ -53,8 +68,21 @@ class Program:
         """The identity (depth 0/lowest depth) instance for a def path."""
         c = self.by_path.get(path)
         if not c:
+            # no_std builds print std items under core:: / alloc::
+            for alt in _alt_paths(path):
+                c = self.by_path.get(alt)
+                if c:
+                    break
+        if not c:
             return None
         return sorted(c, key=lambda i: (i['depth'], len(i['key'])))[0]
+
+
+def _alt_paths(path):
+    import re as _re
+    if 'std::' not in path:
+        return []
+    return [_re.sub(r'(?<![A-Za-z0-9_:])std::', 'core::', path), _re.sub(r'(?<![A-Za-z0-9_:])std::', 'alloc::', path)]
 
 
 def loc(sp):
